@@ -315,6 +315,22 @@ def step (s : S) (toks : List String) : S × String :=
       -- `rc`: the verdict of a node that only applied the chain; one function here
       ({ s with blk := some b }, blockLine st b v ++ " rc=same")
     | _, _, _ => (s, "bad-op")
+  | "votetime" :: t =>
+    -- block times are given as offsets (ns) from the local clock: the model runs with now = 0
+    let opt (k : String) : Option (Option Int) :=
+      match kv t k with
+      | some "nil" => some none
+      | some v => v.toInt?.map some
+      | none => none
+    match opt "locked", opt "prop", (kv t "iota").bind String.toInt? with
+    | some l, some p, some iotaMs =>
+      let r := voteTime 0 l p (iotaMs * 1000000)
+      let cls := if r = 0 then "now"
+        else if l.any (fun x => r = x + iotaMs * 1000000) then "locked+iota"
+        else if p.any (fun x => r = x + iotaMs * 1000000) then "proposal+iota" else "other"
+      let gt (o : Option Int) : String := match o with | some x => toString (decide (r > x)) | none => "-"
+      (s, s!"vt={cls} gtlocked={gt l} gtprop={gt p}")
+    | _, _, _ => (s, "bad-op")
   | "addev" :: t =>
     match s.st, (kv t "ev").bind (parseEvsX s.ih) with
     | some _, some [(m, some c)] =>
